@@ -856,6 +856,8 @@ class ComposerBinary(ComposerBase):
 
         for value in values:
             try:
+                if item_size == 3 and not 0 <= value < 2 ** 24:
+                    raise struct.error('3-byte format requires 0 <= number <= 16777215')
                 packed_bytes = struct.pack(
                     self.byte_order.value + _SIZE_TO_FORMAT[item_size],
                     value
